@@ -13,15 +13,17 @@ RULE = ("Engine F: generated factories, all node types, node_setup_time >= 0, en
         "functions defining IDLE / PROCESSING / BLOCKED states, computed from ledger pull instants, recorded delay draws and "
         "push instants, equal the reported totals (tolerance 1e-9*max(1,T)). Non-trivial: some node was in >= 3 distinct "
         "states during the run and T is not a multiple of every delay.")
+RULE += (" Two in ten flow-shaped factories also contain rework loops (a machine feeding itself or a machine of an earlier layer through a "
+         "Buffer / Fleet edge with a strictly positive delay / transit time, so no zero-time cycle exists); machine oracles work per visit, not per item.")
 ASSUMPTIONS = ["tolerance 1e-9*max(1,T) on sums of state times",
                "a non-blocking node's discarded item leaves at its ready instant (C09)"]
 
-PROFILE = {"conveyors": False, "pack": 3, "finite": 3, "setup": True}
+PROFILE = {"cycles": 2, "conveyors": False, "pack": 3, "finite": 3, "setup": True}
 TOL = 1e-9
 
 
 def examples(tier):
-    return 4000 if tier == "quick" else 80000
+    return 8000 if tier == "quick" else 240000
 
 
 def _vary_T(t):
@@ -153,7 +155,7 @@ class AccountingOracle(FOracle):
                         continue
                     tr = t + d
                     proc.append((t, tr))
-                    tp = self.book.t_push.get((nid, id(item)))
+                    tp = self.book.push_of_pull.get((nid, j))
                     if tp is not None:
                         blk.append((tr, tp[0]))
                     elif ns.get("blocking", True):
